@@ -322,6 +322,14 @@ def run_unit(unit):
         def on_exec(ch, x):
             common.pcount(part, 'evaluations')
             at = getattr(x.rt, 'interrupted_at', None)
+            n_acc0 = sum(1 for e in x.log if e[0] == 'accept')
+            if len(accepted_sets(x)) > n_acc0:
+                viol('C06|rewritten-without-acceptance',
+                     f'the output file was rewritten {len(accepted_sets(x))} '
+                     f'times but the main loop adopted only {n_acc0} '
+                     f'candidates (schedule '
+                     f'{[c for _, c in ch.vector() if c][:6]}); it holds '
+                     f'{(x.out_bytes or b"")[:80]!r}')
             if at is None:
                 return
             common.pcount(part, 'distinct_nontrivial')
@@ -511,6 +519,10 @@ def main(tier):
                          S.MUTATOR_SETS[ms])
                 units.append(('cmd-interrupt', s,
                               {'sched': 1 if j > 1 else 0, 'fault': 1}))
+    for strat in ('ddmin', 'hybrid'):
+        s = S.mk(f'asserts8/6asserts/{strat}/j2/cmdint', 'asserts8',
+                 ('count', 'assert', 6), strat, 2, S.MUTATOR_SETS['erase'])
+        units.append(('cmd-interrupt', s, {'sched': 1, 'fault': 1}))
     units.sort(key=lambda u: 0 if u[0] == 'cmd-interrupt' else 1)
     for p in common.pmap(run_unit, units, init=_init, chunksize=1):
         rep.merge(p)
